@@ -80,7 +80,7 @@ func genVerifyCorners(g *G) {
 func init() {
 	suites["C05"] = func(g *G) {
 		sub := &G{R: g.R, Tier: g.Tier}
-		genSignedStructs(sub, g.n(30, 1000))
+		genSignedStructs(sub, g.n(80, 1000))
 		for _, c := range sub.Cases {
 			if kind, ok := verifyKinds[c.Op]; ok {
 				g.gen = "c05:" + c.Gen
